@@ -784,14 +784,16 @@ class _Parser(object):
 
             fieldname = value.get('as', 'this')
             in_expr = value['in']
-            return [
+            mapped = [
                 _Parser(
                     self._doc_dict,
                     dict(self._user_vars, **{fieldname: item}),
                     ignore_missing_keys=self._ignore_missing_keys,
-                ).parse(in_expr)
+                )._parse_or_nothing(in_expr)
                 for item in input_array
             ]
+            # An item whose value is missing gives a null element.
+            return [None if value is NOTHING else value for value in mapped]
 
         if operator == '$size':
             if isinstance(value, list):
